@@ -18,7 +18,7 @@ NOT_APPLICABLE = {
     "C11": "one caller-supplied file handle written/read in a single pass with no retry or partial-write handling, and the property assigns no meaning to I/O faults; fault-free it is a pure function of the tree and options",
     "C15": "Walker.walk is a pure function of (tree, start, end); no state, fault or interleaving",
 }
-PENDING = {p: 'check not yet built in this round (planned, see DESIGN.md section 4)' for p in ('C08','C12','C13','C14','C19','C20')}
+PENDING = {p: 'check not yet built in this round (planned, see DESIGN.md section 4)' for p in ('C08','C12','C13','C14','C19')}
 
 TECH = {
     "C01": "deterministic simulation: seeded operation histories x hook-fault injection (once/multi/persistent, all 8 hooks, BaseException too) with fault-position sweeps, C01 invariant after every call, both ANYTREE_ASSERTIONS settings",
@@ -31,7 +31,9 @@ TECH.update({
     "C17": "deterministic simulation: twin universes (plain vs adversarial special-method class) in lock-step under the same seeded history and fault plan; differential on every result plus a caller-frame probe in each overridden method",
     "C18": "deterministic simulation: twin universes (NodeMixin vs LightNodeMixin+__slots__) in lock-step under the same seeded history and hook-fault plan; differential on outcome, structure, hook log and the query battery",
 })
+TECH["C20"] = "deterministic simulation: seeded histories interleaving structural calls (with hook faults) and attribute writes/reads on links, links-to-links and targets; forest reference model + attribute-store model checked on every node after every step"
 NOTE = {
+    "C20": "trusts the forest and attribute-store reference models; C01's invariant is reported here as C20's own clause, C03's rollback clauses are judged by C03's check (whose class menus include the link classes), not here",
     "C04": "trusts the harness's reference walks (sim/queries.py ref_nav); the consistency guard (C01) runs first so no query is issued on a corrupt forest",
     "C17": "differential: says the adversarial class behaves like the plain one, not that either is right (C02/C04 say that); probe attribution by caller frame file path",
     "C18": "differential only: absolute correctness of either mixin is C01-C04/C16's business; exporters, search and util helpers are not in the statement and not compared",
